@@ -7,6 +7,9 @@
 (*       -- enabled everywhere except inside ~Other, whose body is text    *)
 (*       (with StrictOther = FALSE the restriction is lifted and TLC shows *)
 (*       the invariant failing: inserting into ~O is NOT presentation-only)*)
+(*   InsMany(i, k): insert k in {20, 21, 22} blank or comment lines at a   *)
+(*       site of the data section (one step): more decoration lines than  *)
+(*       the 21-line window lasio samples to sniff the data layout         *)
 (*   ReWrap(per): re-segment the data lines of a WRAP=YES text             *)
 (* Spacing, line ends, final newline and delimiter padding do not exist at *)
 (* this level of abstraction: they are choices of the concretiser, i.e.    *)
@@ -24,7 +27,10 @@ Bases == << I!VBlock("NO", "SPACE") \o I!WBlock("null1") \o I!CBlock(2) \o I!PBl
               \o I!ABlock(2, 2, I!NoDeco(2), I!Fin),
             I!VBlock("YES", "SPACE") \o I!WBlock("null1") \o I!CBlock(3) \o I!AWrapped(2, 3, 2),
             I!VBlock("NO", "COMMA") \o I!WBlock("null1") \o I!CBlock(2) \o I!ABlock(2, 2, I!NoDeco(2), I!Fin) \o I!PBlock(1, <<>>),
-            I!VBlock("NO", "TAB") \o I!WBlock("null1") \o I!CBlock(2) \o I!XBlock("X1", <<>>) \o I!ABlock(1, 2, I!NoDeco(1), I!Fin) >>
+            I!VBlock("NO", "TAB") \o I!WBlock("null1") \o I!CBlock(2) \o I!XBlock("X1", <<>>) \o I!ABlock(1, 2, I!NoDeco(1), I!Fin),
+            \* a text column (spelled as identifiers or as date-like digit-hyphen-digit tokens by the concretiser)
+            I!VBlock("NO", "SPACE") \o I!WBlock("null1") \o I!CBlock(3)
+              \o I!ABlock(2, 3, I!NoDeco(2), LAMBDA i, j : IF j = 2 THEN "TEXT" ELSE "FIN") >>
 
 SecAt(t, i) == IF i = 0 \/ R!SectionOf(t, i) = 0 THEN "none" ELSE t[R!SectionOf(t, i)].sec
 InsertAfter(t, i, ln) == SubSeq(t, 1, i) \o <<ln>> \o SubSeq(t, i + 1, Len(t))
@@ -40,10 +46,15 @@ ReWrapped(t, per) ==
 
 Init == /\ \E b \in DOMAIN Bases : base = b /\ text = Bases[b]
         /\ n = 0 /\ ops = <<>>
+RECURSIVE InsertMany(_, _, _, _)
+InsertMany(t, i, ln, k) == IF k = 0 THEN t ELSE InsertMany(InsertAfter(t, i, ln), i, ln, k - 1)
 Step(newtext, op) == text' = newtext /\ n' = n + 1 /\ ops' = Append(ops, op) /\ UNCHANGED base
 Next == /\ n < MaxSteps
         /\ \/ \E i \in 1..Len(text) : CanInsert(text, i) /\ Step(InsertAfter(text, i, [k |-> "blank"]), <<"blank", i>>)
            \/ \E i \in 1..Len(text) : CanInsert(text, i) /\ Step(InsertAfter(text, i, [k |-> "comment"]), <<"comment", i>>)
+           \/ \E i \in 1..Len(text), k \in {20, 21, 22}, kind \in {"blank", "comment"} :
+                 /\ SecAt(text, i) = "A" /\ CanInsert(text, i) /\ Len(text) < 40
+                 /\ Step(InsertMany(text, i, [k |-> kind], k), <<"many-" \o kind, i, k>>)
            \/ /\ R!Wrap(text) = "YES" /\ \A i \in R!BodyIdx(text, R!TitleOf(text, "A")) : text[i].k = "data"
               /\ \E per \in 1..(2 * R!NCols(R!Rows(text))) : Step(ReWrapped(text, per), <<"rewrap", per>>)
 Spec == Init /\ [][Next]_<<text, base, n, ops>>
